@@ -22,7 +22,27 @@ def known_sig(desc, P, case, cfg, o):
         return "skip-TupleId-crashes-after-HoistAggregate"
     return None
 
+def post(res, Ps, cases, wd):
+    """A: the optimised RAM produced with each single pass skipped is executed by spec/Ram.tla on every EDB case
+    (translation validation of each pass in isolation); T: the interpreter's traces on those RAM programs."""
+    import random, concurrent.futures as cf
+    from .. import ramcheck
+    from ..common import seed
+    sup = [i for i, P in enumerate(Ps) if cases[i] and not P.get("types")][: (3 if res.tier == "quick" else 20)]
+    jobs = [(i, p) for i in sup for p in [None] + PASSES]
+    def one(job):
+        i, p = job
+        env = {"SOUFFLE_VERIF_SKIP_RAM": p} if p else None
+        usable = cases[i] if len(cases[i]) <= 32 else random.Random(seed() + i).sample(cases[i], 32)
+        return ramcheck.check(Ps[i], usable, wd, "ram_p%d" % i, res, "C06", args=("-j4",), env=env, n_traces=2,
+                              rng=random.Random(seed() * 5 + i), tag="skip_" + (p or "none"))
+    with cf.ThreadPoolExecutor(6) as ex:
+        sts = list(ex.map(one, jobs))
+    res.cov["ram_variants_model_checked"] = sum(1 for s in sts if s["status"] == "ok")
+    res.cov["ram_variant_status"] = {k: sum(1 for s in sts if s["status"] == k) for k in set(s["status"] for s in sts)}
+
 def run(tier, replay=None):
     return evalprop.run_eval("C06", tier, lambda s, n: gen.programs(s, n), configs,
-                             ["each pass skipped singly plus 3 seeded subsets per program; compiled mode sampled"],
-                             n=(10, 120), max_cases=(8, 32), known_sig=known_sig)
+                             ["each pass skipped singly plus 3 seeded subsets per program; compiled mode sampled",
+                              "RAM-level validation (spec/Ram.tla) covers the programs without record/ADT types"],
+                             n=(10, 120), max_cases=(8, 32), known_sig=known_sig, post=post)
